@@ -65,6 +65,22 @@ class RealPrims(object):
         import importlib
         return importlib.import_module("Crypto.Hash.SHAKE%d" % bits).new(bytes(msg)).read(outlen)
 
+    def keccak(self, cap, rounds, padding, msg, outlen):
+        """FIPS 202 sponge[Keccak-p[1600, rounds], pad10*1 with the domain byte, rate 200 - cap](msg, outlen) -- pure Python"""
+        r = 200 - cap
+        msg = bytes(msg)
+        q = r - (len(msg) % r)
+        pad = bytes([padding | 0x80]) if q == 1 else bytes([padding]) + bytes(q - 2) + b"\x80"
+        data = msg + pad
+        st = bytes(200)
+        for i in range(0, len(data), r):
+            st = keccak_f1600(bytes(a ^ b for a, b in zip(st[:r], data[i:i + r])) + st[r:], rounds)
+        out = st[:r]
+        while len(out) < outlen:
+            st = keccak_f1600(st, rounds)
+            out += st[:r]
+        return out[:outlen]
+
     def uf(self, name, ins, outlen):
         import importlib
         ins = [bytes(i) for i in ins]
@@ -168,6 +184,10 @@ class SymPrims(object):
 
     def hash(self, name, msg, outlen, *params):
         return self.c.SymBytes(self.n.HASH(name, self._e(msg), outlen, *params))
+
+    def keccak(self, cap, rounds, padding, msg, outlen):
+        """sponge output as the (chunked, prefix-consistent) uninterpreted sponge of vlib/pysym/natives.py"""
+        return self.c.SymBytes(self.n.keccak_stream(cap, rounds, padding, self._e(msg), 0, outlen))
 
     def shake(self, bits, msg, outlen):
         """SHAKE128/256 output as the (chunked, prefix-consistent) uninterpreted sponge of vlib/pysym/natives.py"""
